@@ -1,21 +1,22 @@
 #!/venv/bin/python
-"""Prints a markdown table of the seeded changes kept under seeded/ (from their meta.json)."""
+"""Prints the markdown table of the seeded changes kept under seeded/ (from their meta.json and seeded/first_missed.json)."""
 import json
 import os
 
 HERE = os.path.dirname(os.path.abspath(__file__))
 VERIF = os.path.dirname(HERE)
+missed = json.load(open(os.path.join(VERIF, "seeded", "first_missed.json")))
 rows = []
 for d in sorted(os.listdir(os.path.join(VERIF, "seeded"))):
     mp = os.path.join(VERIF, "seeded", d, "meta.json")
     if not os.path.exists(mp):
         continue
     m = json.load(open(mp))
-    need = " ".join(m.get("needs_to_manifest", "").split())
-    # first sentence-ish of the notes
-    short = need[:230] + ("…" if len(need) > 230 else "")
-    rows.append((d, m["property"], "yes" if m.get("confirmed") else "NO", ", ".join(m.get("caught_by", [])) or "—", short.replace("|", "/")))
-print("| seed | property | confirmed | caught by (quick tier) | what it is / needs |")
+    need = " ".join(m.get("needs_to_manifest", "").replace("#", "").split())
+    short = need[:150] + ("…" if len(need) > 150 else "")
+    assert m.get("confirmed"), d
+    rows.append((d, m["property"], short.replace("|", "/"), ", ".join(m.get("caught_by", [])) or "NOT CAUGHT", missed.get(d, "")))
+print("| seed | prop | change (from the author's notes) | caught by (quick) | first missed because |")
 print("|---|---|---|---|---|")
 for r in rows:
     print("| " + " | ".join(r) + " |")
